@@ -1,4 +1,5 @@
 """C08 — references to other Quadlet units resolve to real names and add dependencies"""
+import os
 import core, gen, gen_units as G, canon, refs
 from core import hx, unhx
 
@@ -180,5 +181,46 @@ def oracle(ctx):
     # drop-ins: the name a referrer sees is the name the unit creates after its drop-ins are merged
     import filespell
     filespell.compare(ctx, [fs for _, fs, _ in sets[:600 if ctx.thorough else 150]], filespell.DROPIN_WAYS, 'C08 names and references in drop-ins')
+    # "a reference to a file that does not exist fails ONLY the referring unit, with an error naming the missing file": the whole run,
+    # every kind of reference in every type of referrer, beside valid units of all seven types (some converted before, some after it)
+    import e2e, shutil as _sh
+    BY = {'a-img.image': '[Image]\nImage=quay.io/x/y\n', 'a-vol.volume': '[Volume]\n', 'a-net.network': '[Network]\n', 'a-bld.build': '[Build]\nImageTag=localhost/t\nFile=/f\n',
+          'a-ctr.container': '[Container]\nImage=localhost/a\n', 'zz-ctr.container': '[Container]\nImage=localhost/z\n', 'zz-kube.kube': '[Kube]\nYaml=/k.yaml\n', 'zz-pod.pod': '[Pod]\n'}
+    DANGLING = [('ref.container', '[Container]\nImage=localhost/i\nNetwork=gone.network\n', 'gone.network'), ('ref.container', '[Container]\nImage=localhost/i\nNetwork=gone.container\n', 'gone.container'),
+                ('ref.container', '[Container]\nImage=localhost/i\nNetwork=gone.network:ip=10.0.0.2\n', 'gone.network'), ('ref.container', '[Container]\nImage=localhost/i\nVolume=gone.volume:/d\n', 'gone.volume'),
+                ('ref.container', '[Container]\nImage=localhost/i\nMount=type=volume,source=gone.volume,dst=/m\n', 'gone.volume'), ('ref.container', '[Container]\nImage=localhost/i\nMount=type=image,source=gone.image,dst=/m\n', 'gone.image'),
+                ('ref.container', '[Container]\nImage=gone.image\n', 'gone.image'), ('ref.container', '[Container]\nImage=gone.build\n', 'gone.build'), ('ref.container', '[Container]\nImage=localhost/i\nPod=gone.pod\n', 'gone.pod'),
+                ('ref.volume', '[Volume]\nDriver=image\nImage=gone.image\n', 'gone.image'), ('ref.pod', '[Pod]\nNetwork=gone.network\n', 'gone.network'), ('ref.pod', '[Pod]\nVolume=gone.volume:/d\n', 'gone.volume'),
+                ('ref.kube', '[Kube]\nYaml=/k.yaml\nNetwork=gone.network\n', 'gone.network'), ('ref.build', '[Build]\nImageTag=localhost/r\nFile=/f\nNetwork=gone.network\n', 'gone.network'),
+                ('ref.build', '[Build]\nImageTag=localhost/r\nFile=/f\nVolume=gone.volume:/d\n', 'gone.volume'), ('aa-ref.container', '[Container]\nImage=localhost/i\nNetwork=gone.network\n', 'gone.network')]
+
+    def run_d(c):
+        name, text, missing = c
+        base = e2e.fresh_dir()
+        e2e.write_tree(base, {'src/' + n: t for n, t in dict(BY, **{name: text}).items()})
+        outs = []
+        for dry in (True, False):
+            rc, so, se = e2e.run_binary((['--dry-run'] if dry else []) + ['--no-kmsg-log', os.path.join(base, 'out')], os.path.join(base, 'src'))
+            made = set(os.path.basename(p) for p, _ in e2e.split_dry_run(so)[1]) if dry else set(os.listdir(os.path.join(base, 'out')) if os.path.isdir(os.path.join(base, 'out')) else [])
+            outs.append((dry, rc, se, made))
+        _sh.rmtree(base, ignore_errors=True)
+        return outs
+    want_svcs = {'a-img-image.service', 'a-vol-volume.service', 'a-net-network.service', 'a-bld-build.service', 'a-ctr.service', 'zz-ctr.service', 'zz-kube.service', 'zz-pod-pod.service'}
+    for (name, text, missing), outs in zip(DANGLING, e2e.pmap(run_d, DANGLING)):
+        for dry, rc, se, made in outs:
+            res.oracle_evals += 1
+            errs = [l for l in se.split('\n') if 'ERROR' in l]
+            fails = []
+            if rc != 1:
+                fails.append(f'exit status {rc}, expected 1')
+            if not any(missing in l and name in l for l in errs):
+                fails.append(f'no error line names the missing file {missing} (and the referring unit {name}): {errs[:3]}')
+            if want_svcs - made:
+                fails.append(f'units that do not refer to {missing} were not generated: {sorted(want_svcs - made)}')
+            if any(m.startswith(name.split(".")[0] + '.') or m.startswith(name.split(".")[0] + '-') for m in made):
+                fails.append(f'a service was generated for the referring unit {name}')
+            for f in fails:
+                res.oracle_failures.append(dict(op='e2e ' + ('--dry-run' if dry else 'normal run'), input=dict(referrer=name, unit=text, beside=sorted(BY)),
+                                                impl_output=dict(exit=rc, errors=errs[:3], generated=sorted(made)), oracle_expectation=f))
     res.samples.append(dict(kind='oracle-case', files=sets[0][1], order=[sets[0][0][i] for i in sets[0][2]]))
     ctx.log(f'oracle: {res.oracle_evals} evaluations, {len(res.oracle_failures)} failures')
